@@ -2051,3 +2051,53 @@ def prelude_rejected(binary):
         if line.startswith("prelude-rejected "):
             return line[len("prelude-rejected "):]
     return None
+
+
+# --------------------------------------------------------------- struct templates (source level)
+# Structs are outside the Coq model and the tuple AST; these by-construction programs exercise
+# struct definitions, instantiation, field access, generic structs and lists of structs on the
+# implementation only.  Each template: source text, expected verdict, expected raw dimension of
+# some `let`s (for accepted ones).
+_SQ = [("m", {"Length": 1}, "Length"), ("s", {"Time": 1}, "Time"), ("kg", {"Mass": 1}, "Mass"),
+       ("A", {"Current": 1}, "Current"), ("K", {"Temperature": 1}, "Temperature")]
+
+
+def raw_dim_text(d):
+    d = {k: Fraction(v) for k, v in d.items() if Fraction(v) != 0}
+    return "D[" + ";".join("b%s^%d/%d" % (k, d[k].numerator, d[k].denominator) for k in sorted(d)) + "]"
+
+
+def _dmul(a, b, sb=1):
+    out = dict(a)
+    for k, v in b.items():
+        out[k] = out.get(k, 0) + sb * v
+    return out
+
+
+def struct_templates(rng, k):
+    """-> list of dict(source, expect, lets)"""
+    (u1, d1, n1), (u2, d2, n2) = rng.sample(_SQ, 2)
+    u3, d3, n3 = rng.choice([q for q in _SQ if q[1] not in (d1, d2)])
+    S, G = "Sa%d" % k, "Sg%d" % k
+    v, w, r = "vs%d" % k, "vt%d" % k, "vq%d" % k
+    c1, c2 = rng.choice(["2", "3", "1.5"]), rng.choice(["4", "5", "0.5"])
+    out = []
+    base = "struct %s { fa: %s, fb: %s }\nlet %s = %s { fa: %s %s, fb: %s %s }\n" % (S, n1, n2, v, S, c1, u1, c2, u2)
+    out.append(dict(source=base + "let %s = %s.fa / %s.fb\nlet %s = %s.fa * %s.fa" % (r, v, v, w, v, v),
+                    expect="accept", lets={r: raw_dim_text(_dmul(d1, d2, -1)), w: raw_dim_text(_dmul(d1, d1))}))
+    out.append(dict(source=base + "let %s = %s.fa + %s.fb" % (r, v, v), expect="reject", lets={}))
+    out.append(dict(source="struct %s { fa: %s, fb: %s }\nlet %s = %s { fa: %s %s, fb: %s %s }" % (
+        S, n1, n2, v, S, c1, u2, c2, u2), expect="reject", lets={}))
+    out.append(dict(source=base + "let %s: %s = %s.fb" % (r, n1, v), expect="reject", lets={}))
+    out.append(dict(source=base + "fn fs%d(pq: %s) -> %s = pq.fa^2 / pq.fb\nlet %s = fs%d(%s)" % (
+        k, S, "%s^2 / %s" % (n1, n2), r, k, v), expect="accept",
+        lets={r: raw_dim_text(_dmul(_dmul(d1, d1), d2, -1))}))
+    gen = "struct %s<DA: Dim, DB: Dim> { fx: DA, fy: DA, fz: DB }\n" % G
+    out.append(dict(source=gen + "let %s = %s { fx: %s %s, fy: %s %s, fz: %s %s }\nlet %s = (%s.fx + %s.fy) * %s.fz" % (
+        v, G, c1, u1, c2, u1, c1, u3, r, v, v, v), expect="accept", lets={r: raw_dim_text(_dmul(d1, d3))}))
+    out.append(dict(source=gen + "let %s = %s { fx: %s %s, fy: %s %s, fz: %s %s }" % (
+        v, G, c1, u1, c2, u2, c1, u3), expect="reject", lets={}))
+    out.append(dict(source=base + "let %s = [%s, %s { fa: %s %s, fb: %s %s }]\nlet %s = head(%s).fa" % (
+        w, v, S, c2, u1, c1, u2, r, w), expect="accept", lets={r: raw_dim_text(d1)}))
+    out.append(dict(source=base + "let %s = [%s.fa, %s.fb]" % (w, v, v), expect="reject", lets={}))
+    return out
